@@ -443,6 +443,32 @@ XPathProcessorImpl::tokenize(const XalanDOMString&  pat)
 
                         startSubstring = XalanDOMString::npos;
                     }
+                    else if (c == XalanUnicode::charFullStop)
+                    {
+                        // A '.' is never the start of a name.  It starts a
+                        // number (.5), it's the first half of '..', or it's
+                        // a token by itself...
+                        if (i + 1 < nChars &&
+                            XalanXMLChar::isDigit(pat[i + 1]) == true)
+                        {
+                            while(i + 1 < nChars &&
+                                  XalanXMLChar::isDigit(pat[i + 1]) == true)
+                            {
+                                ++i;
+                            }
+                        }
+                        else if (i + 1 < nChars &&
+                                 pat[i + 1] == XalanUnicode::charFullStop)
+                        {
+                            ++i;
+                        }
+
+                        substring(pat, theToken, startSubstring, i + 1);
+
+                        addToTokenQueue(theToken);
+
+                        startSubstring = XalanDOMString::npos;
+                    }
                 }
             }
         }
